@@ -1,14 +1,48 @@
 (** * C08 -- dates depend only on topology, sample times and mutation placement.
-    The model's input type is the projection pi (edges, mutation positions and nodes);
-    the statement below records that signature.  It is a restatement (true by
-    construction); the property is DECIDED by the differential check: the implementation
-    is run on inputs that differ only in data outside pi and must give identical
-    results, and the implementation's extraction layer must equal the model run on pi. *)
-From Coq Require Import List Reals.
-From TsdateV Require Import lib.Num model.Inputs proofs.InputsFacts.
+    [C08_front_end_factorises]: the model of the dating front end (model/FrontEnd.v: the sample
+    set, the node constraints and their validity check, roots / leaves / unconstrained roots, the
+    (position, node) placement of every mutation, the edge each mutation sits on and the per-edge
+    (count, span * mu)) reads a table collection whose node rows carry the WHOLE flags word, the time
+    and an opaque payload, whose sites and mutations carry payloads, and whose remaining tables are an
+    opaque payload; it is a function of the projection the property names (edges, node times,
+    sample flags, mutation positions and nodes).  [C08_only_sample_bit_read]: rewriting the flags
+    by any map that keeps bit 0, and every payload arbitrarily, changes nothing;
+    [C08_equality_mask_refuted]: a front end testing flags == 1 would not have that property.
+    [C08_factorises]: the older statement on the smaller projection (edges, mutations) used by C07.
+    What these theorems do NOT cover is the numerical dating algorithm downstream of the front end:
+    that it reads nothing else from the tree sequence is DECIDED by the differential check (the
+    implementation run on inputs differing only outside pi must give identical results), and the
+    model is tied to the code by comparing [front_end_F] with the attributes of the implementation's
+    ExpectationPropagation object on every run. *)
+From Coq Require Import List Reals ZArith QArith.
+From TsdateV Require Import lib.Num model.Inputs proofs.InputsFacts model.FrontEnd proofs.FrontEndFacts.
 Open Scope R_scope.
+
+Theorem C08_front_end_factorises : forall (Junk : Type) (tb tb' : tables RNum Junk) (mu : R),
+  pi_full tb = pi_full tb' -> front_end tb mu = front_end tb' mu.
+Proof. exact (front_end_factor RNum). Qed.
+Print Assumptions C08_front_end_factorises.
+
+Theorem C08_only_sample_bit_read : forall (Junk : Type) (tb : tables RNum Junk) (mu : R)
+    (g : Z -> Z) (j : Junk -> Junk),
+  (forall f, Z.testbit (g f) 0 = Z.testbit f 0) ->
+  front_end (mkTables (map (fun n => mkNode (g (nflags n)) (ntime n) (j (njunk n))) (t_nodes tb))
+                      (t_edges tb) (t_sites tb) (t_muts tb) (j (t_rest tb))) mu
+  = front_end tb mu.
+Proof. exact (front_end_flag_bits RNum). Qed.
+Print Assumptions C08_only_sample_bit_read.
+
+Theorem C08_equality_mask_refuted : exists (n n' : node QNum unit),
+  (ntime n, is_sample n) = (ntime n', is_sample n') /\ constraint_eqmask n <> constraint_eqmask n'.
+Proof. exact eqmask_refuted. Qed.
+Print Assumptions C08_equality_mask_refuted.
 
 Theorem C08_factorises : forall (Junk : Type) (tb tb' : raw_tables RNum Junk) (mu : R),
   pi tb = pi tb' -> dating_inputs tb mu = dating_inputs tb' mu.
 Proof. exact C08_factor. Qed.
 Print Assumptions C08_factorises.
+
+(** two DIFFERENT table collections (flag bits, payloads, a mutation-free extra site) with the same projection *)
+Example C08_nonvacuous : exists (tb tb' : tables QNum nat),
+  tb <> tb' /\ pi_full tb = pi_full tb' /\ t_nodes tb <> t_nodes tb' /\ t_sites tb <> t_sites tb'.
+Proof. exact front_end_nonvacuous. Qed.
